@@ -137,12 +137,19 @@ void vrt_log(const char *fmt, ...)
 	fprintf(trace, "{\"t\":\"%s\",", tn(self)); va_start(ap, fmt); vfprintf(trace, fmt, ap); va_end(ap); fputs("}\n", trace);
 	trace_check();
 }
+#ifdef VRT_COV	/* coverage builds of a driver (anchor coverage pass): counters are written before every _exit */
+extern void __gcov_dump(void);
+static void cov_dump(void) { __gcov_dump(); }
+#else
+static void cov_dump(void) { }
+#endif
 static void failv(const char *what, va_list ap)
 {
 	char msg[256]; vsnprintf(msg, sizeof msg, what, ap);
 	if (trace) { fprintf(trace, "{\"t\":\"%s\",\"op\":\"fail\",\"what\":\"%s\"}\n", tn(self), msg); fflush(trace); }
 	if (schedout) fflush(schedout);
 	fprintf(stderr, "VRT-FAIL %s\n", msg);
+	cov_dump();
 	_exit(3);
 }
 void vrt_fail(const char *what, ...) { va_list ap; va_start(ap, what); failv(what, ap); _exit(3); }
@@ -237,6 +244,7 @@ static void end_run(void)
 	if (is_child) {		/* forked child: there is no main thread to return to */
 		if (trace) { fprintf(trace, "{\"t\":\"main\",\"op\":\"end\",\"decisions\":%ld}\n", decisions); fflush(trace); }
 		if (schedout) fflush(schedout);
+		cov_dump();
 		_exit(0);
 	}
 	sem_post(&main_sem);
@@ -755,6 +763,9 @@ void vrt_run(const struct vrt_opts *o)
 	rng = 88172645463325252UL ^ ((o->seed + 1) * 0x9E3779B97F4A7C15UL); if (!rng) rng = 1;
 	for (int i = 0; i < 8; i++) { rng ^= rng << 13; rng ^= rng >> 7; rng ^= rng << 17; }
 	vrt_tso = o->tso;
+#ifdef VRT_COV
+	vrt_tso = 0;	/* coverage builds carry no plain-access callbacks, which software store buffers need for coherence */
+#endif
 	uniform = o->mode && !strcmp(o->mode, "uniform");
 	budget = envi("VRT_BUDGET", 20000); pct_len = envi("VRT_LEN", 150); nchg = envi("VRT_DEPTH", 3); if (nchg > 8) nchg = 8;
 	sig_futex = envi("VRT_SIG_FUTEX", 0);
@@ -788,4 +799,5 @@ void vrt_run(const struct vrt_opts *o)
 	}
 	if (trace) { fprintf(trace, "{\"t\":\"main\",\"op\":\"end\",\"decisions\":%ld}\n", decisions); fflush(trace); }
 	if (schedout) fflush(schedout);
+	cov_dump();	/* drivers leave with _exit(0) */
 }
